@@ -14,6 +14,13 @@
    while grouping by endpoint / by consumer+endpoint) and the convergence flag
    common.NormalizeTree returned.  Nothing is assumed about them.
 
+   The model describes the code WITH patches/C15/fix-C15c.patch and
+   fix-C15d.patch applied: common.NormalizeTree only logs a URL the tree
+   refuses (the unpatched code returned the error and discovery.Run dropped the
+   whole batch), and a persisted key is split at its FIRST ":::" only
+   (strings.SplitN; the unpatched strings.Split truncated a URL containing
+   ":::" on read-back, merging/losing endpoints).
+
    Representation choices (the observables are unaffected):
    - strings are lists of byte codes;
    - a Go map is an association list with distinct keys, insertion order kept;
